@@ -7,10 +7,17 @@ import zlib
 UNRESERVED = b"ABCDEFGHIJKLMNOPQRSTUVWXYZabcdefghijklmnopqrstuvwxyz0123456789-._~"
 
 
-def pct_encode(b, keep=b"/", always=False, rnd=None):
+# characters a URI path may carry as they are besides the unreserved ones (RFC 3986 pchar: sub-delims, ':' and '@');
+# the parentheses are listed separately because the embedded server's tokenizer takes '(' for the start of a comment
+PATH_RAW_OK = b"!$&'*+,;=:@"
+
+
+def pct_encode(b, keep=b"/", always=False, rnd=None, raw_ok=b""):
     out = bytearray()
     for c in b:
-        if bytes([c]) in keep or (bytes([c]) in UNRESERVED and not (always or (rnd and rnd.random() < 0.15))):
+        if raw_ok and rnd and bytes([c]) in raw_ok and rnd.random() < 0.6:
+            out.append(c)
+        elif bytes([c]) in keep or (bytes([c]) in UNRESERVED and not (always or (rnd and rnd.random() < 0.15))):
             out.append(c)
         else:
             out += b"%" + (b"%02X" % c if (rnd is None or rnd.random() < 0.5) else b"%02x" % c)
@@ -87,7 +94,7 @@ class Req:
 
 # --------------------------------------------------------------------------- HTTP
 def http_encode(r, version=b"1.0", keep_alive=False, rnd=None, fold=False, host=b"localhost"):
-    uri = r.script + pct_encode(r.path_info, rnd=rnd)
+    uri = r.script + pct_encode(r.path_info, rnd=rnd, raw_ok=PATH_RAW_OK)
     if r.query is not None:
         uri += b"?" + r.query
     lines = [r.method + b" " + uri + b" HTTP/" + version]
